@@ -94,10 +94,21 @@ def rhs_pool(n, cplx_ok):
     b = r.integers(-3, 4, n).astype(float)
     c = r.integers(-3, 4, n).astype(float)
     c[0] += 1.0
-    pool = [("vec", b), ("col", b.reshape(n, 1)), ("block3dep", np.stack([b, 2 * b, b + c], axis=1))]
+    pool = [("vec", b), ("col", b.reshape(n, 1)), ("block3dep", np.stack([b, 2 * b, b + c], axis=1)),
+            ("blockscaled", np.stack([b, 1e-7 * c], axis=1))]       # every column is its own system, whatever its magnitude
     if cplx_ok:
         pool += [("cvec", b + 1j * c), ("cblock", np.stack([b + 1j * c, c - 2j * b], axis=1))]
     return pool
+
+
+def columns_close(x, xe, tol):
+    """every right-hand side is its own system: relative accuracy per column"""
+    X, XE = np.asarray(x).reshape(len(x), -1), np.asarray(xe).reshape(len(xe), -1)
+    for j in range(XE.shape[1]):
+        sc = np.abs(XE[:, j]).max()
+        if np.abs(X[:, j] - XE[:, j]).max() > tol * (sc if sc > 0 else 1.0):
+            return False
+    return True
 
 
 def solver_instances(name, A, cls, auto):
@@ -169,8 +180,7 @@ def check_matrix(c):
                     if x.shape != b.shape:
                         return "shape", "%s.solve(%s, trans=%s) returned shape %s for a right-hand side of shape %s" % (label, rname, trans, x.shape, b.shape)
                     tol = 1e-6 if iterative else 1e-9
-                    sc = max(1.0, np.abs(xe).max())
-                    if not np.all(np.isfinite(x)) or np.abs(x - xe).max() > tol * sc:
+                    if not np.all(np.isfinite(x)) or not columns_close(x, xe, tol):
                         return "solution/" + label.split("(")[0].split(":")[0], "%s.solve(%s, trans=%s): max error %.3g against the exact solution (A = %s)" % (
                             label, rname, trans, float(np.abs(x - xe).max()), A.tolist())
                     if np.iscomplexobj(x) and not (cls["cplx"] or np.iscomplexobj(b)) and np.abs(np.imag(x)).max() > 0:
@@ -224,13 +234,21 @@ def observations(chk, seed, n):
                     with warnings.catch_warnings():
                         warnings.simplefilter("ignore")
                         sv.update(K)
+                        import scipy.sparse.linalg as spsla
                         for trans in ("N", "T", "H"):
-                            for x0 in (None, 0.1 * (rng.random(b.shape) - 0.5)):
-                                xs = sv.solve(b, x0=x0, trans=trans)
-                                M = {"N": K, "T": K.T, "H": K.conj().T}[trans]
-                                res = np.linalg.norm(M @ xs - b) / np.linalg.norm(b)
-                                if xs.shape != b.shape or not res < 1e-6:
-                                    chk.violation("C05/obs/cg-" + label, "CG(%s) trans=%s x0=%s: relative residual %.3g" % (label, trans, x0 is not None, res), case)
+                            M = {"N": K, "T": K.T, "H": K.conj().T}[trans]
+                            bs = b * np.array([1.0, 1e-6])          # columns of very different magnitude
+                            warm = np.zeros(bs.shape, dtype=bs.dtype)
+                            warm[:, 0] = spsla.spsolve(sps.csc_matrix(M), bs[:, 0])     # an initial guess that already solves the first column
+                            for bb, x0, what in ((b, None, "x0=None"), (b, 0.1 * (rng.random(b.shape) - 0.5), "x0=random"),
+                                                 (bs, None, "scaled columns"), (bs, warm, "scaled columns, x0 solves column 0")):
+                                xs = sv.solve(bb, x0=x0, trans=trans)
+                                if xs.shape != bb.shape:
+                                    chk.violation("C05/obs/cg-" + label, "CG(%s) trans=%s %s: shape %s" % (label, trans, what, xs.shape), case)
+                                    continue
+                                res = np.linalg.norm(M @ xs - bb, axis=0) / np.linalg.norm(bb, axis=0)      # per right-hand side
+                                if not np.all(res < 1e-6):
+                                    chk.violation("C05/obs/cg-" + label, "CG(%s) trans=%s %s: relative residual per column %s" % (label, trans, what, res.tolist()), case)
                 except Exception as e:
                     chk.violation("C05/obs/raise", "CG(%s) raised %s: %s" % (label, type(e).__name__, str(e)[:150]), case)
 
@@ -326,14 +344,14 @@ def replay_life(pool, beh):
             real_only = sparse and not pool[i - 1]["cplx"] and any(t in cfg for t in ("LU", "SOR"))
             for trans in ("N", "T", "H"):
                 adj, det = cm(pool[i - 1]["sol"][trans]["adj"]), complex(*pool[i - 1]["sol"][trans]["det"])
-                for rname, b in [q for j, q in enumerate(rhs_pool(n, cplx_ok=not real_only)) if j in (0, 2, 3)]:
+                for rname, b in [q for j, q in enumerate(rhs_pool(n, cplx_ok=not real_only)) if j in (0, 2, 3, 4)]:
                     xe = (adj @ b) / det
                     try:
                         x = np.asarray(sv.solve(b.copy(), trans=trans))
                     except Exception as e:
                         return "life/raise", "%s: solve(%s, trans=%s) as call #%d raised %s: %s; calls %s" % (cfg, rname, trans, k + 1, type(e).__name__, str(e)[:100], steps)
                     tol = 1e-6 if cfg.startswith("CG") else 1e-9
-                    if x.shape != b.shape or not np.all(np.isfinite(x)) or np.abs(x - xe).max() > tol * max(1.0, np.abs(xe).max()):
+                    if x.shape != b.shape or not np.all(np.isfinite(x)) or not columns_close(x, xe, tol):
                         return "life/" + cfg.split("(")[0].split("+")[0], ("%s: after the calls %s, solve(%s, trans=%s) does not solve the system of the matrix given last "
                                 "(matrix %d of the pool, A = %s): max error %.3g") % (cfg, steps[:k], rname, trans, i, A.tolist(), float(np.abs(x - xe).max()) if x.shape == b.shape else float("nan"))
     return None
